@@ -475,6 +475,44 @@ def wellformed(data):
     except Exception:
         return False
 
+# The tie between model and implementation does not depend on the WORDING of diagnostics.  Compared for every description:
+#   (a) description delivered or not, (b) the number of error callbacks, (c) per callback whether it carries a source position
+#   (the model's error class fixes that: "missing document" / "malformed YAML" have none, everything else is attached to a node),
+#   (d) what the delegate had been handed when loading ended (tools looked up, distinct targets, nodes created, commands loaded,
+#   default target).  The message text -> error code table of the driver is a refinement only: a recognised text must carry the
+#   model's code at that index, an unrecognised one (code 99) is ignored and counted in the evidence.
+UNLOCATED_CODES = {"10", "12", "13"}      # error(StringRef) without a node
+EITHER_CODES = {"11"}                     # additional document: attached to its root when there is one
+
+def tie(impl, model, check_positions=True):
+    """impl: answer of `load`; model: answer of `root`. Returns (reason of disagreement or None, number of unrecognised texts)."""
+    f = [x for x in impl.split(" ") if x != "BADPOS" and not x.startswith(("OTHER:", "OBSERVED:"))]
+    m = model.split(" ")
+    if m[0] not in ("OK", "ERR") or len(m) < 7:
+        return "model outcome %s" % model[:40], 0
+    if f[0] not in ("OK", "ERR") or len(f) < 8:
+        return "implementation answer not understood", 0
+    if f[0] != m[0]:
+        return "accepted vs rejected", 0
+    ic = [] if f[1] == "." else f[1].split(",")
+    mc = [] if m[1] == "." else m[1].split(",")
+    if len(ic) != len(mc):
+        return "number of error callbacks (%d vs %d)" % (len(ic), len(mc)), 0
+    if f[2:7] != m[2:7]:
+        return "delivered to the delegate (tools targets nodes commands default): %s vs %s" % (" ".join(f[2:7]), " ".join(m[2:7])), 0
+    pos = [] if f[7] == "P." else f[7][1:].split(",")
+    unknown = 0
+    for k, (a, b) in enumerate(zip(ic, mc)):
+        if a == "99":
+            unknown += 1
+        elif a != b:
+            return "error class of callback %d (%s vs %s)" % (k, a, b), unknown
+        if check_positions and k < len(pos) and b not in EITHER_CODES:
+            located = pos[k] != "-"
+            if located != (b not in UNLOCATED_CODES):
+                return "position of callback %d (%s, model class %s)" % (k, "present" if located else "absent", b), unknown
+    return None, unknown
+
 def bfile_part(chk, drv, drv_asan, model):
     rng = chk.rng
     ydir = os.path.join(TMP, "y")
@@ -509,7 +547,7 @@ def bfile_part(chk, drv, drv_asan, model):
         mans[i] = ans if st == "ok" else "MODEL-" + st.upper()
     stats = dict(docs=len(cases), wellformed_pyyaml=0, malformed_pyyaml=0, scanner_failed=0, intended_shape_realised=0, generated_trees=0,
                  load_ok=0, load_err=0, loadreal_ok=0, loadreal_err=0, compared=0, disagreements=0, disagreements_on_failed_streams=0,
-                 model_crash_outcomes=0, error_codes_seen=set())
+                 model_crash_outcomes=0, error_codes_seen=set(), error_callbacks=0, unrecognised_error_texts=0)
     dis = []
     for i, (key, data, intended) in enumerate(cases):
         tst, tans = trees[i]
@@ -546,17 +584,24 @@ def bfile_part(chk, drv, drv_asan, model):
             f = lans.split(" ")
             stats["load_ok" if f[0] == "OK" else "load_err"] += 1
             if f[0] in ("OK", "ERR") and len(f) > 1 and f[1] != ".":
-                stats["error_codes_seen"].update(f[1].split(","))
+                stats["error_callbacks"] += len(f[1].split(","))
             if f[0] == "ERR" and (len(f) < 2 or f[1] == "."):
                 chk.violation("bfile-silent-failure", "BuildFile::load() returned no description without reporting any error through the delegate (case %s)" % key,
                               dict(rp, command="load", answer=lans), found_input=True, broken="c19 oracle on implementation (errors only via the delegate)")
             if "BADPOS" in f:
                 chk.violation("bfile-error-position-outside-buffer", "an error was reported at a position outside the buffer being parsed (case %s)" % key,
                               dict(rp, command="load", answer=lans), found_input=True, broken="c19 oracle on implementation (positions inside the buffer)")
-            if any(x.startswith("OTHER:") for x in f):
-                chk.notes.setdefault("unmapped_messages", [])
-                if len(chk.notes["unmapped_messages"]) < 5:
-                    chk.notes["unmapped_messages"].append([vlib.unhx(x[6:]).decode("latin1") for x in f if x.startswith("OTHER:")])
+            for x in f:
+                if x.startswith("OTHER:"):
+                    stats["unrecognised_error_texts"] += 1
+                    t = vlib.unhx(x[6:]).decode("latin1")[:120]
+                    seen = chk.notes.setdefault("unrecognised_error_texts_sample", [])
+                    if t not in seen and len(seen) < 12:
+                        seen.append(t)
+                if x.startswith("OBSERVED:"):
+                    chk.notes.setdefault("description_vs_delegate_counts", [])
+                    if len(chk.notes["description_vs_delegate_counts"]) < 3:
+                        chk.notes["description_vs_delegate_counts"].append(dict(case=key, answer=lans[:200]))
         if rst == "ok":
             f = rans.split(" ")
             stats["loadreal_ok" if f[0] == "OK" else "loadreal_err"] += 1
@@ -570,19 +615,22 @@ def bfile_part(chk, drv, drv_asan, model):
             if m == "CRASH":
                 stats["model_crash_outcomes"] += 1
             stats["compared"] += 1
-            impl = " ".join(x for x in lans.split(" ") if x != "BADPOS" and not x.startswith("OTHER:"))
-            if m != impl:
+            ms = m.split(" ")
+            if ms[0] in ("OK", "ERR") and len(ms) > 1 and ms[1] != ".":
+                stats["error_codes_seen"].update(ms[1].split(","))
+            why, _unknown = tie(lans, m, check_positions=not failed)
+            if why is not None:
                 if failed:
                     # the scanner failed somewhere in this text: the dump (which unescapes every scalar and walks every node)
                     # and the loader (which skips what it rejects) may notice the failure at different entries
                     stats["disagreements_on_failed_streams"] += 1
                     ex = chk.notes.setdefault("disagreements_on_failed_streams_examples", [])
                     if len(ex) < 4:
-                        ex.append(dict(case=key, input_hex=data.hex()[:1600], tree=tans[:300], implementation=lans, model=m))
+                        ex.append(dict(case=key, differs_in=why, input_hex=data.hex()[:1600], tree=tans[:300], implementation=lans, model=m))
                 else:
                     stats["disagreements"] += 1
-                    dis.append(dict(case=key, input_head=data[:400].decode("latin1"), input_hex=data.hex() if len(data) < 3000 else None, tree=tans[:600], implementation=lans, model=m))
-            nontrivial = ("bf", impl[:80])
+                    dis.append(dict(case=key, differs_in=why, input_head=data[:400].decode("latin1"), input_hex=data.hex() if len(data) < 3000 else None, tree=tans[:600], implementation=lans, model=m))
+            nontrivial = ("bf", m[:80])
         chk.count(nontrivial if not key.startswith(("noise", "truncate", "edit")) or nontrivial else None)
     # well-formedness statistics on a sample (PyYAML is slow on big inputs)
     for i in rng.sample(range(len(cases)), min(len(cases), chk.n(400, 4000))):
@@ -600,8 +648,8 @@ def bfile_part(chk, drv, drv_asan, model):
         chk.notes["bfile_disagreements"] = dis[:5]
         if not chk.violations:
             d = dis[0]
-            chk.violation("bfile-correspondence", "model (Parse/BuildFileRoot.v) and BuildFile::load() disagree on %d build descriptions (first: case %s: implementation %r, model %r); the oracle found no crash / hang / over-read" % (
-                len(dis), d["case"], d["implementation"], d["model"]), dict(broken="correspondence: Parse.BuildFileRoot.load vs lib/BuildSystem/BuildFile.cpp", examples=dis[:3]),
+            chk.violation("bfile-correspondence", "model (Parse/BuildFileRoot.v) and BuildFile::load() disagree on %d build descriptions (first: case %s, differing in %s: implementation %r, model %r); the oracle found no crash / hang / over-read" % (
+                len(dis), d["case"], d["differs_in"], d["implementation"][:200], d["model"]), dict(broken="correspondence: Parse.BuildFileRoot.load vs lib/BuildSystem/BuildFile.cpp", examples=dis[:3]),
                 found_input=False, broken="correspondence: Parse.BuildFileRoot.load")
     # the known finding: one very deep document, generated at run time (cheap: 2 x 60000 bytes)
     deep_n = 60000
